@@ -34,14 +34,14 @@ var libOverlay = func(files ...string) map[string][]string {
 
 func init() {
 	properties["C01"] = &PropertySpec{ID: "C01",
-		Rule:        "shapes: every atom kind alone, every combinator over literal atoms, global-pattern programs (list in harness/C01/c01.go), plus the generated family F2 = 10 quantifier forms x 10 quantifier forms x 9 structural positions (nested, sequence-in-loop, alternation-in-loop, adjacent loops, capture+back-reference under loops, inline subroutine called twice, global pattern referenced twice, subroutine / global pattern called inside every loop form) = 900 programs; code-shape lead for every program of all families plus 17 programs with counted loops of 2..4 copies around calls, alternations and lists: when the generated code does not have the expected jump-target shape (calls target the StartSubroutine of their name, loop starts/stops pair up, branch/jump/not-in targets in range) the program is compared with the reference semantics on all ASCII texts of length 0..6 (thorough 8) and a violation is reported only with a distinguishing input, otherwise the run is inconclusive; text: all ASCII strings of length 0..T (quick T=3, thorough T=5); literal bytes symbolic (printable ASCII) in the symbolic-literal group; long inputs: 12 programs with a closed-form answer on texts u^k t (k saved backtracking states, loop iterations, nested calls, captured bytes), k symbolic in [30,34], [62,66], [126,130] (thorough also [14,18], [254,258], [510,514]); the enumerated grammar family of C02 (68 400 programs), every 199th starting at 101 (thorough every 3rd) at T = 3, spans and variables against the reference matcher",
+		Rule:        "shapes: every atom kind alone, every combinator over literal atoms, global-pattern programs (list in harness/C01/c01.go), plus the generated family F2 = 10 quantifier forms x 10 quantifier forms x 9 structural positions (nested, sequence-in-loop, alternation-in-loop, adjacent loops, capture+back-reference under loops, inline subroutine called twice, global pattern referenced twice, subroutine / global pattern called inside every loop form) = 900 programs; code-shape lead for every program of all families plus 17 programs with counted loops of 2..4 copies around calls, alternations and lists: when the generated code does not have the expected jump-target shape (calls target the StartSubroutine of their name, loop starts/stops pair up, branch/jump/not-in targets in range) the program is compared with the reference semantics on all ASCII texts of length 0..6 (thorough 8) and a violation is reported only with a distinguishing input, otherwise the run is inconclusive; text: all ASCII strings of length 0..T (quick T=3, thorough T=4); literal bytes symbolic (printable ASCII) in the symbolic-literal group; long inputs: 12 programs with a closed-form answer on texts u^k t (k saved backtracking states, loop iterations, nested calls, captured bytes), k symbolic in [30,34], [62,66], [126,130] (thorough also [14,18], [254,258], [510,514]); the enumerated grammar family of C02 (68 400 programs), every 199th starting at 101 (thorough every 23rd) at T = 3, spans and variables against the reference matcher",
 		Assumptions: []string{"ASCII text", "loop ids returned by math/rand.Int63 are pairwise distinct", "programs on which the property statement is silent (empty literals, empty/unbound back-references, named loops, whole file/line/word) are assumed away"},
 		Groups: []JobGroup{
 			{Name: "c01-concrete-literals", Overlay: libOverlay("C01/c01.go"), Pkg: "libvore", Entry: "VerifC01",
 				Args: func(tier string, l *Loaded) [][]int64 {
 					T := int64(3)
 					if tier == "thorough" {
-						T = 5
+						T = 4
 					}
 					return seqArgs(countOf(l, "libvore", "VerifC01Count"), T, 0, 0)
 				}},
@@ -79,7 +79,7 @@ func init() {
 			{Name: "c01-enum", Overlay: libOverlay("C01/c01.go", "C02/c02.go", "C02/c02_enum.go"), Pkg: "libvore", Entry: "VerifC02Enum", PanicOK: true, MaxFailures: 2,
 				Args: func(tier string, l *Loaded) [][]int64 {
 					total := countOf(l, "libvore", "VerifC02EnumTotal")
-					stride, off := int(tOf(tier, 199, 3)), 101
+					stride, off := int(tOf(tier, 199, 23)), 101
 					var out [][]int64
 					for i := off; i < total; i += stride {
 						out = append(out, []int64{int64(i), 3})
@@ -90,12 +90,12 @@ func init() {
 				Args: func(tier string, l *Loaded) [][]int64 { return [][]int64{{0, 2, 0, 1}} }},
 		}}
 	properties["C02"] = &PropertySpec{ID: "C02",
-		Rule:        "capture-bearing shapes (captures under alternation, optional/repeated groups, subroutine calls, followed by constructs that can fail; back-references) x all ASCII texts of length 0..T (quick 3, thorough 5); literal bytes symbolic in the second group; 9 shapes with captures around recursive calls / sibling captures with inner choice points at T = 4 (thorough 5); generated family: 6 choice-point prefixes (overlapping lists, alternation, greedy/lazy loops, optional) x 6 captured bodies x 4 contexts in which the capture's path is abandoned (alternation, optional group, repeated group, sibling capture) + back-reference after an abandoned binding = 149 programs at T = 3 (thorough 4); enumerated grammar family (5 quantifier forms x (6 atoms | sequence, alternation, capture, inline subroutine of two quantified atoms), followed by nothing, a literal, a back-reference or a call): 68 400 programs, every 199th (thorough every 3rd) at T = 3",
+		Rule:        "capture-bearing shapes (captures under alternation, optional/repeated groups, subroutine calls, followed by constructs that can fail; back-references) x all ASCII texts of length 0..T (quick 3, thorough 4); literal bytes symbolic in the second group; 9 shapes with captures around recursive calls / sibling captures with inner choice points at T = 4 (thorough 5); generated family: 6 choice-point prefixes (overlapping lists, alternation, greedy/lazy loops, optional) x 6 captured bodies x 4 contexts in which the capture's path is abandoned (alternation, optional group, repeated group, sibling capture) + back-reference after an abandoned binding = 149 programs at T = 3 (thorough 4); enumerated grammar family (5 quantifier forms x (6 atoms | sequence, alternation, capture, inline subroutine of two quantified atoms), followed by nothing, a literal, a back-reference or a call): 68 400 programs, every 199th (thorough every 23rd) at T = 3",
 		Assumptions: []string{"ASCII text", "distinct loop ids", "unbound or empty back-references are assumed away (statement silent / C09)"},
 		Groups: []JobGroup{
 			{Name: "c02", Overlay: libOverlay("C02/c02.go"), Pkg: "libvore", Entry: "VerifC02", PanicOK: true,
 				Args: func(tier string, l *Loaded) [][]int64 {
-					return seqArgs(countOf(l, "libvore", "VerifC02Count"), tOf(tier, 3, 5), 0, 0)
+					return seqArgs(countOf(l, "libvore", "VerifC02Count"), tOf(tier, 3, 4), 0, 0)
 				}},
 			{Name: "c02-symlit", Overlay: libOverlay("C02/c02.go"), Pkg: "libvore", Entry: "VerifC02", PanicOK: true,
 				Args: func(tier string, l *Loaded) [][]int64 {
@@ -112,7 +112,7 @@ func init() {
 			{Name: "c02-enum", Overlay: libOverlay("C01/c01.go", "C02/c02.go", "C02/c02_enum.go"), Pkg: "libvore", Entry: "VerifC02Enum", PanicOK: true, MaxFailures: 2,
 				Args: func(tier string, l *Loaded) [][]int64 {
 					total := countOf(l, "libvore", "VerifC02EnumTotal")
-					stride, off := int(tOf(tier, 199, 3)), 0
+					stride, off := int(tOf(tier, 199, 23)), 0
 					var out [][]int64
 					for i := off; i < total; i += stride {
 						out = append(out, []int64{int64(i), 3})
@@ -123,12 +123,12 @@ func init() {
 				Args: func(tier string, l *Loaded) [][]int64 { return [][]int64{{0, 2, 0, 1}} }},
 		}}
 	properties["C03"] = &PropertySpec{ID: "C03",
-		Rule:        "shapes incl. whole line/file/word, regex literals, named loops, replace, multi-command (harness/C03/c03.go) x texts of length 0..T: ASCII with column claim (quick 3, thorough 5) and all 256 byte values without column claim (quick 3, thorough 4); 10 skip/take/last shapes with multi-byte matches at T = 4 (thorough 5); the 149 generated capture programs of C02 (captures whose path can be abandoned) with C03's assertions (variables are substrings of the value) at T = 3 (thorough 4); long inputs: 4 programs on texts of k lines, k symbolic in [30,34], [62,66], [126,130] (thorough up to [1022,1026]), closed-form offsets / lines / columns / numbers",
+		Rule:        "shapes incl. whole line/file/word, regex literals, named loops, replace, multi-command (harness/C03/c03.go) x texts of length 0..T: ASCII with column claim (quick 3, thorough 4) and all 256 byte values without column claim (quick 3, thorough 4); 10 skip/take/last shapes with multi-byte matches at T = 4 (thorough 5); the 149 generated capture programs of C02 (captures whose path can be abandoned) with C03's assertions (variables are substrings of the value) at T = 3 (thorough 4); long inputs: 4 programs on texts of k lines, k symbolic in [30,34], [62,66], [126,130] (thorough up to [1022,1026]), closed-form offsets / lines / columns / numbers",
 		Assumptions: []string{"column claim for ASCII inputs only (as the property states)"},
 		Groups: []JobGroup{
 			{Name: "c03-ascii", Overlay: libOverlay("C03/c03.go"), Pkg: "libvore", Entry: "VerifC03", PanicOK: true,
 				Args: func(tier string, l *Loaded) [][]int64 {
-					return seqArgs(countOf(l, "libvore", "VerifC03Count"), tOf(tier, 3, 5), 1, 0)
+					return seqArgs(countOf(l, "libvore", "VerifC03Count"), tOf(tier, 3, 4), 1, 0)
 				}},
 			{Name: "c03-bytes", Overlay: libOverlay("C03/c03.go"), Pkg: "libvore", Entry: "VerifC03", PanicOK: true,
 				Args: func(tier string, l *Loaded) [][]int64 {
@@ -160,12 +160,12 @@ func init() {
 				Args: func(tier string, l *Loaded) [][]int64 { return [][]int64{{2, 2, 1, 1}} }},
 		}}
 	properties["C04"] = &PropertySpec{ID: "C04",
-		Rule:        "bodies whose occurrences can overlap or abut (harness/C04/c04.go) x ASCII texts of length 0..T (find quick 3 / thorough 5; replace 3 / 4; 'aa' and 'ab' with symbolic literal bytes at T=4 / 5) x symbolic s,t,n in [0,4]; find and replace; amount clause -> tuple mapping checked on the real lexer+parser with symbolic one- and two-digit numbers; large windows: texts of k unit copies, k symbolic in [64,72] (thorough [0,140]), n,s symbolic in [0,36] (thorough 70) for top/skip/last (find and replace), skip s take t with k in [30,36], s,t<=12 (thorough k<=70, s,t<=23) — counts cross the internal capacities of the window queue",
+		Rule:        "bodies whose occurrences can overlap or abut (harness/C04/c04.go) x ASCII texts of length 0..T (find quick 3 / thorough 4; replace 3 / 4; 'aa' and 'ab' with symbolic literal bytes at T=4 / 5) x symbolic s,t,n in [0,4]; find and replace; amount clause -> tuple mapping checked on the real lexer+parser with symbolic one- and two-digit numbers; large windows: texts of k unit copies, k symbolic in [64,72] (thorough [40,80]), n,s symbolic in [0,36] (thorough 40) for top/skip/last (find and replace), skip s take t with k in [30,36], s,t<=12 (thorough k in [24,40], s,t<=14) — counts cross the internal capacities of the window queue",
 		Assumptions: []string{"ASCII text", "s,t,n <= 4 (straddles len(A) <= T)"},
 		Groups: []JobGroup{
 			{Name: "c04-find", Overlay: libOverlay("C04/c04.go"), Pkg: "libvore", Entry: "VerifC04", PanicOK: true,
 				Args: func(tier string, l *Loaded) [][]int64 {
-					return seqArgs(countOf(l, "libvore", "VerifC04Count"), tOf(tier, 3, 5), 0, 0, 0)
+					return seqArgs(countOf(l, "libvore", "VerifC04Count"), tOf(tier, 3, 4), 0, 0, 0)
 				}},
 			{Name: "c04-replace", Overlay: libOverlay("C04/c04.go"), Pkg: "libvore", Entry: "VerifC04", PanicOK: true,
 				Args: func(tier string, l *Loaded) [][]int64 {
@@ -180,7 +180,7 @@ func init() {
 			{Name: "c04-long", Overlay: libOverlay("C04/c04.go"), Pkg: "libvore", Entry: "VerifC04Long", PanicOK: true, MaxFailures: 3,
 				Args: func(tier string, l *Loaded) [][]int64 {
 					if tier == "thorough" {
-						return [][]int64{{0, 0, 140, 70, 0, 0}, {1, 0, 140, 70, 0, 0}, {2, 0, 70, 23, 0, 0}, {3, 0, 140, 70, 0, 0}, {3, 0, 140, 70, 1, 1}, {0, 0, 70, 35, 1, 0}}
+						return [][]int64{{0, 40, 80, 40, 0, 0}, {1, 40, 80, 40, 0, 0}, {2, 24, 40, 14, 0, 0}, {3, 40, 80, 40, 0, 0}, {3, 40, 80, 40, 1, 1}, {0, 24, 40, 20, 1, 0}}
 					}
 					return [][]int64{{0, 64, 72, 36, 0, 0}, {1, 64, 72, 36, 0, 0}, {2, 30, 36, 12, 0, 0}, {3, 64, 72, 36, 0, 0}, {3, 64, 72, 36, 1, 1}, {0, 30, 36, 18, 1, 0}}
 				}},
@@ -188,12 +188,12 @@ func init() {
 				Args: func(tier string, l *Loaded) [][]int64 { return [][]int64{{0, 2, 0, 0, 1}} }},
 		}}
 	properties["C05"] = &PropertySpec{ID: "C05",
-		Rule:        "6 capture-bearing bodies x 15 with-lists mixing strings, captures, built-ins, undefined names and three transforms (harness/C05/c05.go) x ASCII texts of length 0..T (quick 3, thorough 5); 12 bodies whose capture is reached through a named pattern, an inline subroutine or a counted loop x 5 with-lists at T = 3 (thorough 4)",
+		Rule:        "6 capture-bearing bodies x 15 with-lists mixing strings, captures, built-ins, undefined names and three transforms (harness/C05/c05.go) x ASCII texts of length 0..T (quick 3, thorough 4); 12 bodies whose capture is reached through a named pattern, an inline subroutine or a counted loop x 5 with-lists at T = 3 (thorough 4)",
 		Assumptions: []string{"ASCII text", "the three fixed transforms (evaluation of arbitrary expressions is C11's subject)"},
 		Groups: []JobGroup{
 			{Name: "c05", Overlay: libOverlay("C05/c05.go"), Pkg: "libvore", Entry: "VerifC05", PanicOK: true,
 				Args: func(tier string, l *Loaded) [][]int64 {
-					return seqArgs(countOf(l, "libvore", "VerifC05Count"), tOf(tier, 3, 5), 0)
+					return seqArgs(countOf(l, "libvore", "VerifC05Count"), tOf(tier, 3, 4), 0)
 				}},
 			{Name: "c05-defs", Overlay: libOverlay("C05/c05.go"), Pkg: "libvore", Entry: "VerifC05Defs", PanicOK: true,
 				Args: func(tier string, l *Loaded) [][]int64 {
@@ -230,12 +230,12 @@ func init() {
 				}},
 		}}
 	properties["C13"] = &PropertySpec{ID: "C13",
-		Rule:        "18 capture-free bodies x 22 naming contexts (inline subroutine, global pattern referenced 1..3 times, prefix/suffix/loop/alternation contexts, nested globals) + 5 multi-command programs, x ASCII texts of length 0..T (quick 3, thorough 4); Run repeated, bytecode frozen during Run (write footprint), source recompiled; process code: two definitions sharing variable names (the 16 skeleton pairs of C12 x 6-expression menu) with one command each: the result of the combined source is the concatenation of the results of the commands alone, on the texts a, 1b (thorough also the empty text); the symbolic part is the choice of expressions",
+		Rule:        "18 capture-free bodies x 22 naming contexts (inline subroutine, global pattern referenced 1..3 times, prefix/suffix/loop/alternation contexts, nested globals) + 5 multi-command programs, x ASCII texts of length 0..3; Run repeated, bytecode frozen during Run (write footprint), source recompiled; process code: two definitions sharing variable names (the 16 skeleton pairs of C12 x 6-expression menu) with one command each: the result of the combined source is the concatenation of the results of the commands alone, on the texts a, 1b (thorough also the empty text); the symbolic part is the choice of expressions",
 		Assumptions: []string{"ASCII text", "capture-free bodies (name clashes are by design)"},
 		Groups: []JobGroup{
 			{Name: "c13", Overlay: libOverlay("C13/c13.go"), Pkg: "libvore", Entry: "VerifC13", PanicOK: true,
 				Args: func(tier string, l *Loaded) [][]int64 {
-					return seqArgs(countOf(l, "libvore", "VerifC13Count"), tOf(tier, 3, 4), 0)
+					return seqArgs(countOf(l, "libvore", "VerifC13Count"), tOf(tier, 3, 3), 0)
 				}},
 			{Name: "c13-procs", Overlay: map[string][]string{"libvore": {"common/lib.go", "C12/c12.go", "C13/c13_procs.go"}}, Pkg: "libvore", Entry: "VerifC13Procs", PanicOK: true, MaxFailures: 3,
 				Args: func(tier string, l *Loaded) [][]int64 {
@@ -490,14 +490,14 @@ func init() {
 				Args: func(tier string, l *Loaded) [][]int64 { return [][]int64{{0, 1, 1}} }},
 		}}
 	properties["C20"] = &PropertySpec{ID: "C20",
-		Rule:        "(1) real pathMatches vs the recursive definition of '*': patterns of length 0..4 (thorough 5) and names of length 0..5 (thorough 6) over all printable ASCII except '/', every byte symbolic; (2) real ParsePath(p).GetFileList(\".\") over the model file system: trees of depth <= 2 with up to 2 entries per directory, symbolic 1-byte names over {a,b}, symbolic is-directory bits, patterns of 1..2 segments of 1..2 bytes over {a,b,*}; result compared as a set, no duplicates, no directories; (3) trees of depth 3 with fixed names per level (aa, ab / a, b / a [thorough: a, b]) and symbolic kind of every entry (absent, file, directory with symbolic content), patterns of 1..3 segments chosen symbolically among literal and starred spellings that match one or both names of a level, written relative or as an absolute path below the working directory (symbolic)",
+		Rule:        "(1) real pathMatches vs the recursive definition of '*': patterns of length 0..4 (thorough 5) and names of length 0..5 over all printable ASCII except '/', every byte symbolic; (2) real ParsePath(p).GetFileList(\".\") over the model file system: trees of depth <= 2 with up to 2 entries per directory, symbolic 1-byte names over {a,b}, symbolic is-directory bits, patterns of 1..2 segments of 1..2 bytes over {a,b,*}; result compared as a set, no duplicates, no directories; (3) trees of depth 3 with fixed names per level (aa, ab / a, b / a [thorough: a, b]) and symbolic kind of every entry (absent, file, directory with symbolic content), patterns of 1..3 segments chosen symbolically among literal and starred spellings that match one or both names of a level, written relative or as an absolute path below the working directory (symbolic)",
 		Assumptions: []string{"directory segments made only of stars and ./.. segments are excluded (as the property states)", "absolute patterns are explored only below the working directory", "ReadDir failing is modelled as the code treats it (empty)"},
 		Groups: []JobGroup{
 			{Name: "c20-seg", Overlay: filesOv("C20/c20.go"), Pkg: "files", Entry: "VerifC20Seg",
 				Args: func(tier string, l *Loaded) [][]int64 {
 					var out [][]int64
 					for p := int64(0); p <= tOf(tier, 4, 5); p++ {
-						for t := int64(0); t <= tOf(tier, 5, 6); t++ {
+						for t := int64(0); t <= tOf(tier, 5, 5); t++ {
 							out = append(out, []int64{p, t, 0})
 						}
 					}
@@ -516,12 +516,12 @@ func init() {
 				Args: func(tier string, l *Loaded) [][]int64 { return [][]int64{{1, 1, 1}} }},
 		}}
 	properties["C14"] = &PropertySpec{ID: "C14",
-		Rule:        "103 regexes of the supported subset (every construct alone, every quantifier incl. lazy forms on literal/class/group atoms, plain/non-capturing/named groups nested to depth 2, alternation of atoms or groups alone and under quantifiers, ^ $ anchors, numbered and named back-references incl. nested groups and adjacent variable-length groups whose division of the text is decided by a back-reference) x ASCII texts of length 0..T (quick 4, thorough 6) without \\r \\f \\v; spans and group bindings compared with an independent backtracking regex engine written in the harness",
+		Rule:        "103 regexes of the supported subset (every construct alone, every quantifier incl. lazy forms on literal/class/group atoms, plain/non-capturing/named groups nested to depth 2, alternation of atoms or groups alone and under quantifiers, ^ $ anchors, numbered and named back-references incl. nested groups and adjacent variable-length groups whose division of the text is decided by a back-reference) x ASCII texts of length 0..T (quick 4, thorough 5) without \\r \\f \\v; spans and group bindings compared with an independent backtracking regex engine written in the harness",
 		Assumptions: []string{"texts contain no \\r, \\f, \\v (engines differ on \\s for \\v; the property excludes \\r and \\f)", "repeated bodies that match the empty string and references to unset/empty groups are assumed away", "alternatives are single atoms or groups spanning the enclosing group (ab|cd is outside the stated subset)", "\\w \\W \\b \\B, look-around, empty classes are outside the subset"},
 		Groups: []JobGroup{
 			{Name: "c14", Overlay: libOverlay("C14/c14.go"), Pkg: "libvore", Entry: "VerifC14", PanicOK: true,
 				Args: func(tier string, l *Loaded) [][]int64 {
-					return seqArgs(countOf(l, "libvore", "VerifC14Count"), tOf(tier, 4, 6), 0)
+					return seqArgs(countOf(l, "libvore", "VerifC14Count"), tOf(tier, 4, 5), 0)
 				}},
 			{Name: "c14-twin", Overlay: libOverlay("C14/c14.go"), Pkg: "libvore", Entry: "VerifC14", Twin: true, PanicOK: true,
 				Args: func(tier string, l *Loaded) [][]int64 { return [][]int64{{0, 2, 1}} }},
@@ -570,12 +570,16 @@ func init() {
 				Args: func(tier string, l *Loaded) [][]int64 { return [][]int64{{0, 1}} }},
 		}}
 	properties["C17"] = &PropertySpec{ID: "C17",
-		Rule:        "11 programs (find/replace incl. empty replacements, flat captures, named loops nested to depth 2, zero matches, multi-command) x ASCII texts of length 0..T (quick 2, thorough 3) over ALL 128 values incl. quotes, backslashes and control characters: the real Json/FormattedJson/MarshalJSON code renders through the abstract encoding/json codec; both renderings are parsed by the harness' JSON parser, compared as documents and against the in-memory matches field by field (keys exactly as documented, replacement iff replace, nested variables); texts glued from 2 (thorough 3) symbolically chosen fragments of JSON syntax and escape sequences (backslash, quote, u003c, u0026, u2028, control characters, brackets ...: 24 fragments) for 4 programs",
+		Rule:        "11 programs (find/replace incl. empty replacements, flat captures, named loops nested to depth 2, zero matches, multi-command) x ASCII texts of length 0..2 (thorough: two programs at 3) over ALL 128 values incl. quotes, backslashes and control characters: the real Json/FormattedJson/MarshalJSON code renders through the abstract encoding/json codec; both renderings are parsed by the harness' JSON parser, compared as documents and against the in-memory matches field by field (keys exactly as documented, replacement iff replace, nested variables); texts glued from 2 (thorough 3) symbolically chosen fragments of JSON syntax and escape sequences (backslash, quote, u003c, u0026, u2028, control characters, brackets ...: 24 fragments) for 4 programs",
 		Assumptions: []string{"encoding/json is replaced by a type-directed codec stub honouring the json.Marshaler contract (calls the repository's MarshalJSON methods); byte-level escaping, invalid UTF-8 and non-ASCII handling of the real encoder are outside the claim (exercised only when a counterexample is replayed natively)", "ASCII texts"},
 		Groups: []JobGroup{
 			{Name: "c17", Overlay: libOverlay("common/jsonparse.go", "C17/c17.go"), Pkg: "libvore", Entry: "VerifC17",
 				Args: func(tier string, l *Loaded) [][]int64 {
-					return seqArgs(countOf(l, "libvore", "VerifC17Count"), tOf(tier, 2, 3), 0)
+					out := seqArgs(countOf(l, "libvore", "VerifC17Count"), 2, 0)
+					if tier == "thorough" {
+						out = append(out, []int64{0, 3, 0}, []int64{3, 3, 0})
+					}
+					return out
 				}},
 			{Name: "c17-fragments", Overlay: libOverlay("common/jsonparse.go", "C17/c17.go"), Pkg: "libvore", Entry: "VerifC17Fragments", MaxFailures: 3,
 				Args: func(tier string, l *Loaded) [][]int64 {
